@@ -37,6 +37,14 @@ def WFgap(L):
         all(L[i][1] + 1 < L[j][0] for i in range(len(L)) for j in range(i + 1, len(L)))
 
 
+@spec("list[tuple[int,int]] -> bool")
+def WFinner(L):
+    # like WF, but the outer ends (start of the first, end of the last interval) are unconstrained:
+    # get_exons passes (-inf, x) and (y, inf) sentinels there
+    return all(L[i][0] <= L[i][1] for i in range(1, len(L) - 1)) and \
+        all(L[i][1] < L[j][0] for i in range(len(L)) for j in range(i + 1, len(L)))
+
+
 @spec("list[tuple[int,int]], int -> int")
 def slen(L, n):
     return 0 if n <= 0 else slen(L, n - 1) + (L[n - 1][1] - L[n - 1][0] + 1)
@@ -172,13 +180,17 @@ def ngaps(B, n):
 
 
 contract(C + "junctions_from_blocks", {"sorted_blocks": IVS}, returns=IVS, props=["C19", "C03"],
-         requires=["WF(sorted_blocks)"],
+         requires=["WFinner(sorted_blocks)"],
          locals={"junctions": IVS},
          # the junctions are exactly the gaps between consecutive blocks, in order: the k-th gap sits at index k
          ensures=["WFgap(result)",
                   "len(result) == ngaps(sorted_blocks, len(sorted_blocks) - 1)",
                   "all(result[ngaps(sorted_blocks, i)] == (sorted_blocks[i][1] + 1, sorted_blocks[i + 1][0] - 1) "
-                  "    for i in range(len(sorted_blocks) - 1) if sorted_blocks[i][1] + 1 < sorted_blocks[i + 1][0])"],
+                  "    for i in range(len(sorted_blocks) - 1) if sorted_blocks[i][1] + 1 < sorted_blocks[i + 1][0])",
+                  # special case used by get_exons: when every consecutive pair is separated, junction i is gap i
+                  "not all(sorted_blocks[i][1] + 1 < sorted_blocks[i + 1][0] for i in range(len(sorted_blocks) - 1)) or "
+                  "(len(result) == max(0, len(sorted_blocks) - 1) and "
+                  " all(result[i] == (sorted_blocks[i][1] + 1, sorted_blocks[i + 1][0] - 1) for i in range(len(sorted_blocks) - 1)))"],
          loops={0: {"inv": [
              "len(junctions) == ngaps(sorted_blocks, _k0)", "0 <= len(junctions) <= _k0",
              "WFgap(junctions)",
@@ -186,6 +198,8 @@ contract(C + "junctions_from_blocks", {"sorted_blocks": IVS}, returns=IVS, props
              "all(junctions[ngaps(sorted_blocks, i)] == (sorted_blocks[i][1] + 1, sorted_blocks[i + 1][0] - 1) "
              "    for i in range(_k0) if sorted_blocks[i][1] + 1 < sorted_blocks[i + 1][0])",
              "all(0 <= ngaps(sorted_blocks, i) <= ngaps(sorted_blocks, i + 1) <= len(junctions) for i in range(_k0))",
+             "not all(sorted_blocks[i][1] + 1 < sorted_blocks[i + 1][0] for i in range(_k0)) or "
+             "(len(junctions) == _k0 and all(junctions[i] == (sorted_blocks[i][1] + 1, sorted_blocks[i + 1][0] - 1) for i in range(_k0)))",
          ]}},
          canary="len(result) == max(0, len(sorted_blocks) - 1)")
 
@@ -214,3 +228,195 @@ contract(C + "argmin", {"l": "list[int]"}, returns="int", props=["C19"],
          loops={0: {"inv": ["0 <= min_i < len(l)", "min_i <= _k0", "min_v == l[min_i]", "all(min_v <= l[j] for j in range(_k0))",
                             "all(l[j] > min_v for j in range(min_i))"]}},
          canary="result == 0")
+
+
+# ---- suffix sums (mirror of the prefix sums; C11 relies on the pair) -------------------------------------------------
+lemma("above_head_zero", {"L": IVS, "i1": "int", "d": "int", "p": "int"}, props=["C19"],
+      # the d intervals before index i1 all end at or before p: they contribute nothing
+      requires=["WF(L)", "0 <= d <= i1 <= len(L)", "i1 == 0 or L[i1 - 1][1] <= p"],
+      ensures=["above(L, i1 - d, p) == above(L, i1, p)"], induct="d", base="0")
+
+lemma("above_all", {"L": IVS, "d": "int", "p": "int"}, props=["C19"],
+      requires=["WF(L)", "0 <= d <= len(L)", "len(L) > 0", "p < L[0][0]"],
+      ensures=["above(L, len(L) - d, p) == slen(L, len(L)) - slen(L, len(L) - d)"], induct="d", base="0")
+
+contract(C + "sum_intervals_from_point", {"sorted_range_list": IVS, "pos": "int"}, returns="int", props=["C19", "C11"],
+         requires=["len(sorted_range_list) > 0", "WF(sorted_range_list)"],
+         ensures=["result == above(sorted_range_list, 0, pos)"],
+         loops={0: {"inv": ["-1 <= i < len(sorted_range_list)", "total_len == above(sorted_range_list, i + 1, pos)"],
+                    "exit_hints": ["above_head_zero(sorted_range_list, i + 1, i + 1, pos)"]}},
+         hints={"entry": ["above_all(sorted_range_list, len(sorted_range_list), pos)",
+                          "above_head_zero(sorted_range_list, len(sorted_range_list), len(sorted_range_list), pos)"]},
+         canary="result == above(sorted_range_list, 0, pos - 1)")
+
+# ---- binary search in ordered intervals ------------------------------------------------------------------------------
+contract(C + "interval_bin_search", {"ordered_intervals": IVS, "pos": "int"}, returns="int", props=["C19", "C11"],
+         requires=["len(ordered_intervals) > 0", "WF(ordered_intervals)"],
+         # index of the last interval whose start is <= pos (the interval containing pos, or the one left of the gap pos is in)
+         ensures=["(result == -1) == (pos < ordered_intervals[0][0] or pos > ordered_intervals[len(ordered_intervals) - 1][1])",
+                  "result == -1 or (0 <= result < len(ordered_intervals) and ordered_intervals[result][0] <= pos and "
+                  "(result == len(ordered_intervals) - 1 or pos < ordered_intervals[result + 1][0]))"],
+         loops={0: {"inv": ["s == len(ordered_intervals) - 1", "0 <= ind <= s - 1", "current_step >= 0",
+                            "current_step <= 1 or (ind - s // 2 <= s // 2 - current_step and s // 2 - ind <= s // 2 - current_step)",
+                            "ordered_intervals[0][0] <= pos < ordered_intervals[s][0]"]}},
+         canary="result == -1 or ordered_intervals[result][0] <= pos <= ordered_intervals[result][1]")
+
+contract(C + "interval_bin_search_rev", {"ordered_intervals": IVS, "pos": "int"}, returns="int", props=["C19", "C11"],
+         requires=["len(ordered_intervals) > 0", "WF(ordered_intervals)"],
+         # index of the first interval whose end is >= pos
+         ensures=["(result == -1) == (pos < ordered_intervals[0][0] or pos > ordered_intervals[len(ordered_intervals) - 1][1])",
+                  "result == -1 or (0 <= result < len(ordered_intervals) and pos <= ordered_intervals[result][1] and "
+                  "(result == 0 or ordered_intervals[result - 1][1] < pos))"],
+         loops={0: {"inv": ["s == len(ordered_intervals) - 1", "0 <= ind <= s", "current_step >= 0",
+                            "current_step <= 1 or (ind - s // 2 <= s // 2 - current_step and s // 2 - ind <= s // 2 - current_step)",
+                            "ordered_intervals[0][1] < pos <= ordered_intervals[s][1]"]}},
+         canary="result == -1 or ordered_intervals[result][0] <= pos <= ordered_intervals[result][1]")
+
+# ---- junction / exon conversion -------------------------------------------------------------------------------------------
+contract(C + "get_following_exon_from_junctions", {"region": IV, "introns": IVS, "intron_position": "int"}, returns=IV,
+         props=["C19", "C11"],
+         requires=["len(introns) > 0", "-1 <= intron_position < len(introns)"],
+         ensures=["result[0] == introns[intron_position][1] + 1",
+                  "result[1] == (region[1] if (intron_position == len(introns) - 1 or intron_position == -1) else introns[intron_position + 1][0] - 1)"])
+
+contract(C + "get_preceding_exon_from_junctions", {"region": IV, "introns": IVS, "intron_position": "int"}, returns=IV,
+         props=["C19", "C11"],
+         requires=["0 <= intron_position <= len(introns)"],
+         ensures=["result[0] == (region[0] if intron_position == 0 else introns[intron_position - 1][1] + 1)",
+                  "result[1] == (region[1] if intron_position == len(introns) else introns[intron_position][0] - 1)"])
+
+contract(C + "get_exon", {"read_region": IV, "read_junctions": IVS, "exon_position": "int"}, returns=IV, props=["C19"],
+         requires=["len(read_junctions) > 0", "-len(read_junctions) - 1 <= exon_position <= len(read_junctions)"],
+         # the exon_position-th exon (negative positions count from the end) of the transcript region/junctions describe
+         ensures=["result == (read_region[0] if (exon_position % (len(read_junctions) + 1)) == 0 else read_junctions[(exon_position % (len(read_junctions) + 1)) - 1][1] + 1, "
+                  "read_region[1] if (exon_position % (len(read_junctions) + 1)) == len(read_junctions) else read_junctions[exon_position % (len(read_junctions) + 1)][0] - 1)"])
+
+contract(C + "get_exons", {"read_region": IV, "read_introns": IVS}, returns=IVS, props=["C19", "C03", "C14"],
+         requires=["WFgap(read_introns)",
+                  "len(read_introns) == 0 or (read_region[0] < read_introns[0][0] and read_introns[len(read_introns) - 1][1] < read_region[1])",
+                  "read_region[0] <= read_region[1]"],
+         # inverse of junctions_from_blocks on gapped well-formed input: exon k lies between intron k-1 and intron k
+         ensures=["len(result) == len(read_introns) + 1",
+                  "result[0][0] == read_region[0] and result[len(result) - 1][1] == read_region[1]",
+                  "all(result[k][1] == read_introns[k][0] - 1 and result[k + 1][0] == read_introns[k][1] + 1 for k in range(len(read_introns)))",
+                  "WF(result)"],
+         trusted=False)
+
+
+# ---- profile helpers (C01 relies on them as well) -------------------------------------------------------------------------
+PROF = "list[int]"
+
+contract(C + "equal_profiles_in_range", {"isoforom_profile": PROF, "read_profile": PROF, "profile_range": IV},
+         returns="bool", props=["C19", "C01"],
+         requires=["0 <= profile_range[0]", "profile_range[1] <= len(read_profile)", "len(isoforom_profile) == len(read_profile)"],
+         ensures=["result == all(isoforom_profile[i] == read_profile[i] for i in range(profile_range[0], profile_range[1]) if read_profile[i] != 0)"],
+         loops={0: {"inv": ["all(isoforom_profile[i] == read_profile[i] for i in range(profile_range[0], profile_range[0] + _k0) if read_profile[i] != 0)"]}},
+         canary="result == all(isoforom_profile[i] == read_profile[i] for i in range(profile_range[0], profile_range[1]))")
+
+contract(C + "all_features_present", {"isoform_profile": PROF, "read_profile": PROF}, returns="bool", props=["C19", "C01"],
+         requires=["len(isoform_profile) == len(read_profile)"],
+         ensures=["result == all(read_profile[i] == 1 for i in range(len(isoform_profile)) if isoform_profile[i] == 1)"],
+         loops={0: {"inv": ["all(read_profile[i] == 1 for i in range(_k0) if isoform_profile[i] == 1)"]}},
+         canary="result == all(read_profile[i] == 1 for i in range(len(isoform_profile)))")
+
+contract(C + "has_overlapping_features", {"profile1": PROF, "profile2": PROF, "profile_range": "opt[tuple[int,int]]"},
+         returns="bool", props=["C19", "C01"],
+         requires=["len(profile1) == len(profile2)",
+                   "profile_range is None or (0 <= profile_range[0] and profile_range[1] <= len(profile1))"],
+         ensures=["result == any(profile1[i] == 1 and profile2[i] == 1 for i in range(0 if profile_range is None else profile_range[0], "
+                  "len(profile1) if profile_range is None else profile_range[1]))"],
+         loops={0: {"inv": ["not any(profile1[i] == 1 and profile2[i] == 1 for i in range(profile_range[0], profile_range[0] + _k0))"]}},
+         canary="result == any(profile1[i] == 1 for i in range(len(profile1)))")
+
+contract(C + "has_inconsistent_features", {"read_profile": PROF, "gene_profile": PROF}, returns="bool", props=["C19", "C01"],
+         requires=["len(read_profile) == len(gene_profile)"],
+         ensures=["result == any(read_profile[i] != gene_profile[i] and read_profile[i] != 0 for i in range(len(read_profile)))"],
+         loops={0: {"inv": ["not any(read_profile[i] != gene_profile[i] and read_profile[i] != 0 for i in range(_k0))"]}})
+
+@spec("list[int], list[int], int -> int")
+def both1(p1, p2, n):
+    return 0 if n <= 0 else both1(p1, p2, n - 1) + (1 if p1[n - 1] == 1 and p2[n - 1] == 1 else 0)
+
+
+contract(C + "count_both_present_features", {"profile1": PROF, "profile2": PROF}, returns="int", props=["C19"],
+         requires=["len(profile1) == len(profile2)"],
+         ensures=["result == both1(profile1, profile2, len(profile1))"],
+         loops={0: {"inv": ["d == both1(profile1, profile2, _k0)"]}},
+         canary="result == both1(profile1, profile2, len(profile1) - 1)")
+
+
+@spec("list[int], list[int], int, int -> int")
+def hamming(p1, p2, lo, n):
+    # number of positions lo <= i < n where both are non-zero and differ
+    return 0 if n <= lo else hamming(p1, p2, lo, n - 1) + (1 if p1[n - 1] != 0 and p2[n - 1] != 0 and p1[n - 1] != p2[n - 1] else 0)
+
+
+contract(C + "difference_in_present_features",
+         {"profile1": PROF, "profile2": PROF, "diff_limit": "int", "profile_range": "opt[tuple[int,int]]"},
+         returns="int", props=["C19", "C01"],
+         requires=["len(profile1) == len(profile2)", "diff_limit >= -1",
+                   "profile_range is None or (0 <= profile_range[0] <= profile_range[1] <= len(profile1))"],
+         # the Hamming distance over positions where both are informative, or, when the limit is exceeded, a value above it
+         ensures=["profile_range is not None or result == hamming(profile1, profile2, 0, len(profile1)) or "
+                  "(diff_limit != -1 and result == diff_limit + 1 and hamming(profile1, profile2, 0, len(profile1)) > diff_limit)",
+                  "profile_range is None or result == hamming(profile1, profile2, profile_range[0], profile_range[1]) or "
+                  "(diff_limit != -1 and result == diff_limit + 1 and hamming(profile1, profile2, profile_range[0], profile_range[1]) > diff_limit)"],
+         loops={0: {"inv": ["d == hamming(profile1, profile2, profile_range[0], profile_range[0] + _k0)", "d <= diff_limit",
+                            "0 <= d <= _k0"],
+                    "exit_hints": ["hamming_mono(profile1, profile2, profile_range[0], profile_range[0] + _k0 + 1, profile_range[1] - profile_range[0] - _k0 - 1)"]}},
+         canary="result <= diff_limit")
+
+lemma("hamming_mono", {"p1": PROF, "p2": PROF, "lo": "int", "n": "int", "d": "int"}, props=["C19"],
+      requires=["d >= 0"], ensures=["hamming(p1, p2, lo, n + d) >= hamming(p1, p2, lo, n)"], induct="d", base="0")
+
+contract(C + "find_matching_positions", {"profile1": PROF, "profile2": PROF}, returns=PROF, props=["C19"],
+         requires=["len(profile1) == len(profile2)"],
+         ensures=["len(result) == len(profile1)",
+                  "all(result[i] == (1 if profile1[i] == profile2[i] else 0) for i in range(len(profile1)))"],
+         loops={0: {"inv": ["len(matches) == len(profile1)",
+                            "all(matches[i] == (1 if profile1[i] == profile2[i] else 0) for i in range(_k0))",
+                            "all(matches[i] == 0 for i in range(_k0, len(profile1)))"]}})
+
+contract(C + "mask_profile", {"read_profile": PROF, "true_profile": PROF}, returns=PROF, props=["C19"],
+         requires=["len(read_profile) == len(true_profile)"], locals={"masked_profile": PROF},
+         ensures=["len(result) == len(true_profile)",
+                  "all(result[i] == (read_profile[i] if true_profile[i] == 1 else 0) for i in range(len(true_profile)))"],
+         loops={0: {"inv": ["len(masked_profile) == _k0",
+                            "all(masked_profile[i] == (read_profile[i] if true_profile[i] == 1 else 0) for i in range(_k0))"]}})
+
+contract(C + "is_subprofile", {"short_isoform_profile": PROF, "long_isoform_profile": PROF}, returns="bool",
+         props=["C19", "C01"],
+         requires=["len(short_isoform_profile) == len(long_isoform_profile)",
+                   "all(short_isoform_profile[i] != 0 for i in range(len(short_isoform_profile)))",
+                   "any(short_isoform_profile[i] == 1 or short_isoform_profile[i] == -1 for i in range(len(short_isoform_profile)))"],
+         locals={"short_range_start": "opt[int]", "short_range_end": "opt[int]"},
+         ghost={"gfirst": "int", "glast": "int"},
+         # gfirst / glast: ghost names for the first and last position carrying +-1 (pinned by the requires below)
+         ensures=["not (0 <= gfirst <= glast < len(short_isoform_profile) "
+                  "and (short_isoform_profile[gfirst] == 1 or short_isoform_profile[gfirst] == -1) "
+                  "and (short_isoform_profile[glast] == 1 or short_isoform_profile[glast] == -1) "
+                  "and all(short_isoform_profile[i] != 1 and short_isoform_profile[i] != -1 for i in range(gfirst)) "
+                  "and all(short_isoform_profile[i] != 1 and short_isoform_profile[i] != -1 for i in range(glast + 1, len(short_isoform_profile)))) "
+                  "or result == all(short_isoform_profile[i] == long_isoform_profile[i] for i in range(gfirst, glast + 1))"],
+         loops={0: {"inv": ["(short_range_start is None) == (short_range_end is None)",
+                            "short_range_start is None or (0 <= short_range_start <= short_range_end < _k0 and "
+                            "(short_isoform_profile[short_range_start] == 1 or short_isoform_profile[short_range_start] == -1) and "
+                            "(short_isoform_profile[short_range_end] == 1 or short_isoform_profile[short_range_end] == -1) and "
+                            "all(short_isoform_profile[i] != 1 and short_isoform_profile[i] != -1 for i in range(short_range_start)) and "
+                            "all(short_isoform_profile[i] != 1 and short_isoform_profile[i] != -1 for i in range(short_range_end + 1, _k0)))",
+                            "short_range_start is not None or all(short_isoform_profile[i] != 1 and short_isoform_profile[i] != -1 for i in range(_k0))"]},
+                1: {"inv": ["all(short_isoform_profile[i] == long_isoform_profile[i] for i in range(short_range_start, short_range_start + _k1))"]}},
+         native=False)
+
+contract(C + "get_blocks_from_profile", {"features": IVS, "profile": PROF}, returns=IVS, props=["C19"],
+         requires=["len(features) == len(profile)"], locals={"profile_features": IVS},
+         ensures=["len(result) == ones(profile, len(profile))",
+                  "all(result[ones(profile, i)] == features[i] for i in range(len(profile)) if profile[i] == 1)"],
+         loops={0: {"inv": ["len(profile_features) == ones(profile, _k0)",
+                            "all(profile_features[ones(profile, i)] == features[i] for i in range(_k0) if profile[i] == 1)",
+                            "all(0 <= ones(profile, i) <= ones(profile, i + 1) <= len(profile_features) for i in range(_k0))"]}})
+
+
+@spec("list[int], int -> int")
+def ones(p, n):
+    return 0 if n <= 0 else ones(p, n - 1) + (1 if p[n - 1] == 1 else 0)
